@@ -248,6 +248,20 @@ def run(ctx):
             lim_ok = True
     c.ob("R2", bool(brk) and lim_ok, dr, "breaker-compares-with-max-iterations", "the run loop cuts a raise chain longer than max_iterations" if brk and lim_ok else
          "the run loop's raise-chain breaker is missing or not tied to max_iterations", dr.node)
+    # ---- R7 a cut leaves an interpreter that still answers the next event -------------------------------
+    from sa.util import canon_atom
+    for b_ in brk:
+        t = canon_atom(b_.test)
+        dir_ok = t[0] in (">", ">=") and "_raise_depth" in t[1] and t[3] is True or (t[0] in ("<", "<=") and "_raise_depth" in t[2] and t[3] is True)
+        c.ob("R7", dir_ok, dr, "breaker-fires-above-the-bound", "the breaker fires when the chain is longer than the bound" if dir_ok else
+             f"the breaker test '{norm(b_.test)}' does not fire for a chain longer than the bound (it fires for short chains instead): chains shorter "
+             f"than the bound are cut and runaway ones are not", b_)
+        resets = [y for st_ in b_.body for y in ast.walk(st_) if isinstance(y, ast.Assign) and "_raise_depth" in norm(y.targets[0]) and isinstance(y.value, ast.Constant) and y.value.value == 0]
+        leaves = [type(y).__name__ for st_ in b_.body for y in ast.walk(st_) if isinstance(y, (ast.Break, ast.Return, ast.Continue, ast.Raise))]
+        ok = bool(resets) and leaves == ["Continue"]
+        c.ob("R7", ok, dr, "cut-keeps-the-loop-alive", "after a cut the counter starts again and the loop goes on to the next event" if ok else
+             f"the breaker branch {'does not reset the chain counter' if not resets else 'leaves the run loop with ' + str(leaves)}: after one cut every later event "
+             f"is discarded (or the consumer task ends) - the interpreter no longer answers the next event", b_)
     c.floor("R2", "inline self-enqueue sites in the async macrostep closure", n, 2)
     # ---- R4 the chain counter is reset only when the chain has ended ----------------------
     for v in VIEWS:
